@@ -396,7 +396,8 @@ def attrNames (cs : List Cls) (kind : String) : List String :=
 /-- `define_class` raises on a repeated kind; `define_unique_identifier` (with a non-empty
     attribute list) and `define_association` raise `UnknownClassException` on an undeclared
     kind — classes inferred from INSERTs do not exist yet in phases 2 and 3 —;
-    `define_association` raises on an identifying attribute the referred class lacks;
+    `define_association` raises on an identifying attribute the referred class lacks and on key lists of
+    different length;
     phase 4 raises `ParsingException` on a named INSERT whose numbers of names and values differ. -/
 def accepted (ss : List Stmt) : Bool :=
   let cs := popClasses ss
@@ -406,6 +407,7 @@ def accepted (ss : List Stmt) : Bool :=
       | .uniq k _ as => as.isEmpty || kinds.contains k
       | .assoc a => kinds.contains a.srcKind && kinds.contains a.tgtKind
           && a.tgtKeys.all (fun n => (attrNames cs a.tgtKind).contains n)
+          && a.srcKeys.length == a.tgtKeys.length
       | .insert _ (some ns) vs => ns.length == vs.length
       | _ => true)
 
